@@ -652,7 +652,7 @@ func checkC13(p *Prog, res *Result, tier string) {
 	// ---- R10: a streamed batch is not refilled after it was sent (C05-R9) ----
 	{
 		sub5 := newResult("C05")
-		checkHandOffAliasing(p, sub5, "C05-R9", "pkg/backend/scanner")
+		checkHandOffAliasing(p, sub5, "C05-R9", "pkg/backend", "pkg/backend/scanner")
 		for _, o := range sub5.Obls {
 			res.add("C13-R10", o.Rule+" "+o.Construct, o.Status, o.Pos, o.Detail)
 		}
